@@ -48,6 +48,7 @@ type Interp struct {
 	assertQ int
 	cfg     *RunCfg
 	expired *int32
+	res     *RunResult
 	liveDesc string
 	tags    []string
 	fnSteps map[*ssa.Function]int
